@@ -203,14 +203,11 @@ func Unpack(buf []byte, dotu bool) (fc *Fcall, fcsz int, err error) {
 		fc.Fid, p = gint32(p)
 		fc.Offset, p = gint64(p)
 		fc.Count, p = gint32(p)
-		if len(p) != int(fc.Count) {
-			fc.Data = make([]byte, fc.Count)
-			copy(fc.Data, p)
-			p = p[len(p):]
-		} else {
-			fc.Data = p
-			p = p[fc.Count:]
+		if uint64(len(p)) != uint64(fc.Count) {
+			goto szerror
 		}
+		fc.Data = p
+		p = p[fc.Count:]
 
 	case Rwrite:
 		fc.Count, p = gint32(p)
